@@ -90,16 +90,53 @@ def build_binary(ck, name, extra_flags=(), tag=""):
 # ----------------------------------------------------------------------------- generated test directories
 RUN_SH = """#!/bin/sh
 # usage: run.sh <exit status> <milliseconds> <token>
-sleep 0.$(printf '%03d' "$2")
+case "$2" in
+  0) ;;
+  ?) sleep "0.00$2" ;;
+  *) sleep "0.0$2" ;;
+esac
 echo "$3"
 exit "$1"
 """
 
 
-def gen_check(rng, d, name, k, big=False):
+#: designed checks present in every tree: (commands as (fails, expected_output matches or None, shall_fail), comparisons)
+DESIGNED = [
+    ([(False, None, False)], [False, True]),      # a failing comparison followed by a passing one
+    ([(True, None, False)], [True]),              # a failing command forgiven (or not) by a passing comparison
+    ([(True, None, False)], []),                  # a failing command, nothing to forgive it
+    ([(True, None, True)], []),                   # a command which shall fail, and does
+    ([(False, False, False)], []),                # unexpected output
+    ([(False, True, False), (False, None, False)], [True, True]),
+]
+
+
+def gen_check(rng, d, name, k, big=False, designed=None):
     """one .check file and its model-side description"""
     spec = {"name": name, "dir": d, "req": True, "cmds": [], "cmps": [], "malformed": False, "files": {}}
     lines = []
+    if designed is not None:
+        cmds, cmps = designed
+        for c, (fail, out, shall) in enumerate(cmds):
+            tok = "tok%d_%d" % (k, c)
+            cmd = "sh run.sh %d %d %s" % (1 if fail else 0, rng.choice([0, 2, 5]), tok)
+            if out is not None:
+                lines.append('@Command "%s"{expected_output : "%s"};' % (cmd, tok if out else tok + "x"))
+            elif shall:
+                lines.append('@Command "%s"{shall_fail : true};' % cmd)
+            else:
+                lines.append('@Command "%s";' % cmd)
+            spec["cmds"].append({"ranOk": not fail, "outputOk": out, "shallFail": shall, "cmd": cmd})
+        if cmps:
+            lines.append("@Precision 1.e-6;")
+        for c, same in enumerate(cmps):
+            cur, ref = "%s-cur%d.res" % (name, c), "%s-ref%d.res" % (name, c)
+            rows = [(i * 0.5, rng.uniform(1, 10)) for i in range(6)]
+            spec["files"][cur] = "".join("%r %r\n" % r for r in rows)
+            spec["files"][ref] = "".join("%r %r\n" % (t, v if same else v + 1.0) for t, v in rows)
+            spec["cmps"].append(same)
+            lines.append('@Test "%s" "%s" 2;' % (cur, ref))
+        return spec, "\n".join(lines) + "\n"
     kind = rng.random()
     if kind < 0.05:
         spec["malformed"] = True
@@ -153,7 +190,7 @@ def gen_tree(rng, root, nchecks, big=False):
         with open(os.path.join(root, d, "run.sh"), "w") as f:
             f.write(RUN_SH)
         name = "t%03d" % k
-        spec, text = gen_check(rng, d, name, k, big)
+        spec, text = gen_check(rng, d, name, k, big, DESIGNED[k] if k < len(DESIGNED) else None)
         with open(os.path.join(root, d, name + ".check"), "w") as f:
             f.write(text)
         for fn, content in spec["files"].items():
@@ -291,16 +328,16 @@ def run(ck):
              "status_hist": {}, "blocks": 0}
     samples = []
     ntrees = 2 if q else 10
-    jobs_list = [1, 3, 16] if q else list(range(1, 17))
+    jobs_list = [1, 4, 16] if q else list(range(1, 17))
     for tr in range(ntrees):
-        nchecks = rng.choice([5, 8]) if q else rng.choice([4, 10, 20, 40])
+        nchecks = rng.choice([7, 9]) if q else rng.choice([8, 12, 20, 40])
         if tr == ntrees - 1:
             nchecks = max(nchecks, 16)
         root = ck.path("tree%d" % tr)
         specs = gen_tree(rng, root, nchecks, big=not q)
         if tr == 0:   # one tree whose checks all pass: the exit status must be EXIT_SUCCESS
             pass
-        discard = rng.random() < 0.75
+        discard = (tr % 2 == 0)      # every other tree is run with --discard-commands-failure=false
         extra = [] if discard else ["--discard-commands-failure=false"]
         # model verdicts
         vlines = []
@@ -323,8 +360,9 @@ def run(ck):
         stats["checks"] += len(specs)
         reference = None      # blocks of the first run (-j 1), by test name
         # the last tree is also run repeatedly with the largest number of jobs (many short commands in parallel)
-        stress = [16] * (5 if q else 30) if tr == ntrees - 1 else []
-        for j in jobs_list + stress:
+        stress = [16] * (4 if q else 30) if tr == ntrees - 1 else []
+        jl = jobs_list if (not q or tr == 0) else [1, 16]
+        for j in jl + stress:
             yseed = rng.randrange(1, 2 ** 31) if j > 1 else 0
             rc, text, err = run_once(binary, root, j, yseed, extra)
             stats["runs"] += 1
@@ -387,11 +425,11 @@ def run(ck):
                 if rc != reference["rc"]:
                     report(SITE + ":exit-status", True,
                            "exit status depends on the number of jobs: %d with -j %d, %d with -j %d" %
-                           (reference["rc"], jobs_list[0], rc, j), rep)
+                           (reference["rc"], jl[0], rc, j), rep)
                 for n, b in blocks:
                     if reference["blocks"].get(n) != b:
                         report(SITE + ":log-blocks", True,
-                               "the block of %s differs between -j %d and -j %d" % (n, jobs_list[0], j),
+                               "the block of %s differs between -j %d and -j %d" % (n, jl[0], j),
                                dict(rep, block=b[:12], reference_block=(reference["blocks"].get(n) or [])[:12]))
                         break
             # --- correspondence with the model
